@@ -478,14 +478,17 @@ func c07Run(c *fw.Ctx) fw.Outcome {
 	var ops []c07Op
 	nops := r.Intn(5)
 	if useCLI {
-		nops = r.Intn(2)
+		nops = 1 // one sub-command per CLI round; a plain convert every fourth time
+		if r.P(1, 4) {
+			nops = 0
+		}
 	}
 	names := []string{"sync", "fragment", "unfragment", "merge", "optimize", "order", "linear"}
 	for k := 0; k < nops; k++ {
 		op := c07Op{Name: fw.Pick(r, names)}
 		switch op.Name {
 		case "sync":
-			op.D = int64(r.Intn(200)-60) * 200e6
+			op.D = int64(r.Intn(200)-80) * 200e6
 			if op.D == 0 {
 				op.D = 200e6
 			}
